@@ -528,6 +528,11 @@ func (e *env) servicePhase(rng *rand.Rand) {
 	}
 	e.svcUpdate("short", 60, 1)
 	e.svcUpdate("long", 70, 3600)
+	// a service id is a byte string: one that is not valid UTF-8 expires, while a live service is
+	// registered under the id the stored JSON record shows for it (U+FFFD in place of the bad byte)
+	const rawID, twinID = "svc-\xff", "svc-\ufffd"
+	e.svcUpdate(rawID, 65, 1)
+	e.svcUpdate(twinID, 55, 3600)
 	// pd measures lifetimes on its own timestamp clock (which may run ahead of the wall clock and
 	// then stands still until the wall clock has caught up): wait until that clock is past the
 	// recorded expiry of "short"; the bounded wait running out is not a verdict.
@@ -574,8 +579,20 @@ func (e *env) servicePhase(rng *rand.Rand) {
 		if !hasLong {
 			r.Violation("service-safepoint:live-registration-lost", "registration with TTL 3600 s disappeared within seconds", wit)
 		}
-		if resp.MinSafePoint > 70 {
-			r.Violation("service-safepoint:min-above-live-service", fmt.Sprintf("minimum %d above live service long@70", resp.MinSafePoint), wit)
+		if resp.MinSafePoint > 55 {
+			r.Violation("service-safepoint:min-above-live-service", fmt.Sprintf("minimum %d above live service %q@55 (registered with TTL 3600 s) after other registrations expired", resp.MinSafePoint, twinID), wit)
+		}
+		// a second request: the sweep of the first one must not have taken a live registration with it
+		if resp2, err2 := e.svcUpdate("gc_worker", 80, math.MaxInt64); err2 == nil && resp2.MinSafePoint > 55 {
+			r.Violation("service-safepoint:min-above-live-service", fmt.Sprintf("minimum %d above live service %q@55 on the request after the expiry sweep", resp2.MinSafePoint, twinID), wit)
+		}
+		keys := e.kv.Dump()
+		prefix := gcKey + "/service/"
+		if _, ok := keys[prefix+rawID]; ok {
+			r.Violation("service-safepoint:expired-still-listed", "registration under a service id that is not valid UTF-8 with TTL 1 s is still stored after pd's timestamp clock passed its expiry", wit)
+		}
+		if _, ok := keys[prefix+twinID]; !ok {
+			r.Violation("service-safepoint:live-registration-lost", fmt.Sprintf("registration %q with TTL 3600 s disappeared when another registration expired", twinID), wit)
 		}
 		r.Count("expiry_cases", 1)
 		r.Eval(1)
